@@ -26,6 +26,7 @@ type c06Case struct {
 	DelayMs  int        `json:"delay_ms"`
 	Attempts []c06Fault `json:"attempts"`
 	HoldMs   int        `json:"hold_ms"`
+	HeaderMs int        `json:"header_ms"`
 }
 
 type c06Result struct {
@@ -137,6 +138,16 @@ func C06(r *core.Run) {
 			add([]c06Fault{f1, f2, {Kind: "ok", At: -1}}, []int{10, 3900, 5000}[(i+j+int(r.Seed))%3], timings[1+(i+j)%2])
 		}
 	}
+	// a slow backend: every attempt fails (or the first two fail) before the handler has produced its response header
+	for i, f := range fails {
+		if f.At > 0 || f.At == -1 {
+			continue
+		}
+		for _, pat := range [][]c06Fault{{f, f, f}, {f, fails[(i+3)%len(fails)], {Kind: "ok", At: -1}}, {f, {Kind: "ok", At: -1}}} {
+			id := fmt.Sprintf("s%d-%d", r.Seed, len(cases))
+			cases = append(cases, c06Case{ID: id, BodyLen: []int{10, 3900, 5000}[i%3], Chunks: 1 + i%3, HeaderMs: 250, Attempts: pat})
+		}
+	}
 	if !r.Quick() {
 		// exhaustive pairs of early faults on the sizes around the replay limit
 		early := []c06Fault{}
@@ -185,6 +196,9 @@ func C06(r *core.Run) {
 		t := "at-once"
 		if c.Chunks > 1 {
 			t = fmt.Sprintf("streamed%d", c.Chunks)
+		}
+		if c.HeaderMs > 0 {
+			t += "+late-header"
 		}
 		r.Case(fmt.Sprintf("%s|%s|%s", c06Pattern(c.Attempts), c06SizeClass(c.BodyLen), t))
 		if len(res.Attempts) > 1 {
